@@ -122,7 +122,11 @@ def mutants(argv):
         meta = os.path.join(d, "meta.json")
         patch = os.path.join(d, "patch.diff")
         if os.path.exists(meta) and os.path.exists(patch):
-            items.append((os.path.basename(d), json.load(open(meta))["property"], patch))
+            m = json.load(open(meta))
+            if str(m.get("check_result", "")).startswith("missed (out of reach"):
+                print("skipped (documented as out of reach): %s" % os.path.basename(d))
+                continue
+            items.append((os.path.basename(d), m["property"], patch))
     rows = []
     for name, owner, patch in items:
         if only and only not in name:
